@@ -1,4 +1,6 @@
 import TSSVerif.Model.Translate
+import TSSVerif.Gen.Stmts
+import TSSVerif.Model.StmtsExpected
 /-!
 # C06 — node-id / party-id translation is transparent; secrets reach only the right node
 
@@ -188,5 +190,12 @@ def exM : MemMap := [(1, 11), (2, 12), (3, 13), (4, 11), (5, 11)]
 example : initArgs exM [4, 3, 2] = some [11, 12, 13] := by decide
 example : destination exM [4, 3, 2] 11 = some 4 := by decide
 example : initArgs exM [1, 4, 2] = none := by decide
+
+
+/-- **The source the model was transcribed from is the current source**: the statements of `computeMembership`, `partyIDsByUniversalIDs`, `universalIDsByPartyIDs`, `partyIDByUniversalID`, `initializeDKG`, `initializeThresholdSigning`, regenerated from
+`/repo` on this run, are the committed ones (logging left out). A change of any of them — harmless or not — fails here
+first; the differential and monitored runs of this property are then the search for an input on which it fails. -/
+theorem source_as_modelled : TSSVerif.Gen.Stmts.translate = TSSVerif.Model.StmtsExpected.translate := by
+  decide +kernel
 
 end TSSVerif.Props.C06
